@@ -543,6 +543,11 @@ def stream_detect(chk, n):
             # a file cannot also be a directory of another file
             files = [f for f in files if not any(g != f and g.startswith(f + "/") for g in files)]
             extras = bool(on_disk and files and rng.random() < 0.5)
+            # the extras are a directory data/emptydir/sos_commands and a link JBOSS_HOME at the top: a generated FILE at
+            # <root>/data, below <root>/data/emptydir or at <root>/JBOSS_HOME cannot coexist with them on a real disk
+            if extras and any(f == root + "/data" or f == root + "/JBOSS_HOME" or f.startswith(root + "/JBOSS_HOME/")
+                              or f == root + "/data/emptydir" or f.startswith(root + "/data/emptydir/") for f in files):
+                extras = False
             case = {"op": "detect", "files": files, "root": root, "disk": on_disk, "shape": shape, "extras": extras}
             try:
                 got = _detect_impl(files, root, on_disk, extras)
